@@ -279,14 +279,18 @@ func (e *Engine) branch(st *State, c AV) (tS, fS *State) {
 			return nil, nil
 		case fs.empty():
 			st.terms[c.Term] = ts
+			refineParent(st, c.Term, ts)
 			return st, nil
 		case ts.empty():
 			st.terms[c.Term] = fs
+			refineParent(st, c.Term, fs)
 			return nil, st
 		}
 		f := st.clone()
 		st.terms[c.Term] = ts
 		f.terms[c.Term] = fs
+		refineParent(st, c.Term, ts)
+		refineParent(f, c.Term, fs)
 		return st, f
 	case KAtom:
 		if b, ok := st.atoms[c.Sym]; ok {
@@ -1480,6 +1484,35 @@ func (e *Engine) opaqueCall(st *State, x *ssa.Call, name string, callee *ssa.Fun
 			}
 		}
 		inRepoTarget := (callee != nil && e.w.InRepo(callee)) || (x.Call.IsInvoke() && e.w.InRepoPath(pkgPathOfType(x.Call.Value.Type())))
+		if !known && !inRepoTarget && isStdlibCallee(name) {
+			// standard-library default (see effects.go): only what is handed in
+			// by pointer / slice / map may be written
+			for i, a := range full {
+				var at types.Type
+				if recv != nil && i == 0 {
+					at = x.Call.Value.Type()
+				} else {
+					j := i
+					if recv != nil {
+						j--
+					}
+					if j < len(x.Call.Args) {
+						at = x.Call.Args[j].Type()
+					}
+				}
+				if at == nil {
+					continue
+				}
+				switch at.Underlying().(type) {
+				case *types.Pointer, *types.Slice, *types.Map:
+					e.havocPointee(st, a, shortName(name))
+				}
+			}
+			res = e.resultAV(st, x, fmt.Sprintf("%s#%s.%s@%d", shortName(name), x.Parent().Name(), x.Name(), st.epoch), nil)
+			ev.Result = res
+			st.events = append(st.events, ev)
+			return res
+		}
 		if !known {
 			writes = true
 		}
@@ -1490,7 +1523,12 @@ func (e *Engine) opaqueCall(st *State, x *ssa.Call, name string, callee *ssa.Fun
 			for _, a := range full {
 				e.havocPointee(st, a, shortName(name))
 			}
-			e.havocAll(st)
+			if inRepoTarget || known {
+				e.havocAll(st)
+			}
+			// an external callee without a model can write what it is handed
+			// (done above) and its own package's state, but cannot reach this
+			// repository's memory that is not reachable from its arguments
 		}
 		res = e.resultAV(st, x, fmt.Sprintf("%s#%s.%s@%d", shortName(name), x.Parent().Name(), x.Name(), st.epoch), nil)
 		if e.NonNilResult != nil {
@@ -1882,4 +1920,51 @@ func (e *Engine) widenPhi(st *State, phi *ssa.Phi) AV {
 		}
 	}
 	return a
+}
+
+// refineParent: a derived term "(X>>k)" or "(X/k)" (X non-negative) has been
+// restricted to `set`; restrict X to the pre-image. Exact for these monotone
+// operators.
+func refineParent(st *State, term string, set iset) {
+	if !strings.HasPrefix(term, "(") || !strings.HasSuffix(term, ")") {
+		return
+	}
+	body := term[1 : len(term)-1]
+	var x string
+	var k int64
+	var mul int64
+	if i := strings.LastIndex(body, ">>"); i > 0 {
+		if _, err := fmt.Sscanf(body[i+2:], "%d", &k); err != nil || k < 0 || k > 40 || fmt.Sprint(k) != body[i+2:] {
+			return
+		}
+		x, mul = body[:i], int64(1)<<uint(k)
+	} else if i := strings.LastIndex(body, "/"); i > 0 {
+		if _, err := fmt.Sscanf(body[i+1:], "%d", &k); err != nil || k <= 0 || fmt.Sprint(k) != body[i+1:] {
+			return
+		}
+		x, mul = body[:i], k
+	} else {
+		return
+	}
+	cur, ok := st.terms[x]
+	if !ok || cur.empty() || cur.min() < 0 {
+		return
+	}
+	var pre iset
+	for _, iv0 := range set {
+		lo, hi := iv0.lo, iv0.hi
+		if lo < 0 {
+			lo = 0
+		}
+		if hi < lo {
+			continue
+		}
+		plo := lo * mul
+		phi := int64(maxI)
+		if hi < maxI/mul-1 {
+			phi = (hi+1)*mul - 1
+		}
+		pre = append(pre, iv{plo, phi})
+	}
+	st.terms[x] = inter(cur, norm(pre))
 }
